@@ -95,6 +95,33 @@ Definition window (a : arr S) (shape : option (Z * Z)) (sl : option (Z * Z * Z *
       end
   end.
 
+(* lentil.window on a cube (depth, rows, cols).  [shape] goes to lentil.pad, which treats axes 1 and 2
+   as the image; [slice] = (r_start, r_end, c_start, c_end) indexes the same image axes of every layer.
+   (The code before the proposed fix c20-window-slice-cube.patch applies img[s0:s1, s2:s3] to the LEADING
+   two axes of a cube: known finding C20-window-slice-cube-axes; the model is the repaired behaviour and
+   the check recognises exactly the leading-axes result as that finding.) *)
+Definition np_slice3 (c : cube S) (r0 r1 c0 c1 : Z) : cube S :=
+  let r0' := np_bound (cr c) r0 in let r1' := np_bound (cr c) r1 in
+  let c0' := np_bound (cc c) c0 in let c1' := np_bound (cc c) c1 in
+  mkCube (cd c) (Z.max 0 (r1' - r0')) (Z.max 0 (c1' - c0')) (fun k i j => cget c k (i + r0') (j + c0')).
+Definition window3 (c : cube S) (shape : option (Z * Z)) (sl : option (Z * Z * Z * Z)) : result (cube S) :=
+  if cd c * cr c * cc c =? 1 then Ok c else
+  match sl with
+  | Some (s0, s1, s2, s3) =>
+      match shape with
+      | Some (h, w) =>
+          if negb (s1 - s0 =? h) then Err AssertionErr
+          else if negb (s3 - s2 =? w) then Err AssertionErr
+          else Ok (np_slice3 c s0 s1 s2 s3)
+      | None => Ok (np_slice3 c s0 s1 s2 s3)
+      end
+  | None =>
+      match shape with
+      | Some (h, w) => pad3 c h w
+      | None => Ok c
+      end
+  end.
+
 (* ---- lentil.boundary: [p v] is [v > threshold] ---- *)
 Definition row_any (p : S -> bool) (a : arr S) (i : Z) : bool := anyZ (nc a) (fun j => p (get a i j)).
 Definition col_any (p : S -> bool) (a : arr S) (j : Z) : bool := anyZ (nr a) (fun i => p (get a i j)).
@@ -132,7 +159,7 @@ Definition csum (c : cube S) : S := sumZ (cd c) (fun k => asum (cslice c k)).
 End Geometry.
 
 Arguments cslice {S}. Arguments pad_get {S}. Arguments pad2 {S}. Arguments pad3 {S}.
-Arguments subarray {S}. Arguments np_slice {S}. Arguments window {S}. Arguments row_any {S}.
+Arguments subarray {S}. Arguments np_slice {S}. Arguments window {S}. Arguments np_slice3 {S}. Arguments window3 {S}. Arguments row_any {S}.
 Arguments col_any {S}. Arguments boundary {S}. Arguments boundary_slice {S}. Arguments rebin_get {S}.
 Arguments rebin2 {S}. Arguments rebin3 {S}. Arguments csum {S}.
 
